@@ -3,8 +3,8 @@ import sys
 
 from props import _cluster
 
-THEOREMS = ['XmlDiffModel.C17_bounds_partial', 'XmlDiffModel.C17_moves_deletes_bounds', 'XmlDiffModel.C17_created_never_deleted', 'XmlDiffModel.C17_attribute_actions_bound', 'XmlDiffModel.C17_attr_phase_only_attr_actions', 'XmlDiffModel.C17_non_move_actions_change']
-PARTIAL = {'C17_changes': "proved, any size and option set: at most |R| inserts, renames, text and tail updates (every matching); at most 2|R| moves and |L| deletes (every one-to-one matching); no more attribute actions than the two documents have non-ignored attributes together (C17_attribute_actions_bound); no node created by the script is deleted by it (C17_created_never_deleted, on the strict replay of the script). every action other than a move changes the document value (C17_non_move_actions_change: in the replay every insert, delete, rename, text, tail and attribute action yields a different list of payloads in document order). NOT proved, and false of the code: a move changes the document (known finding R1: value-level no-op moves past identical siblings) - moves are decided per run by the change-detecting strict replay of the real script, on namespaced pairs with the real patcher."}
+THEOREMS = ['XmlDiffModel.C17_bounds_partial', 'XmlDiffModel.C17_moves_deletes_bounds', 'XmlDiffModel.C17_created_never_deleted', 'XmlDiffModel.C17_attribute_actions_bound', 'XmlDiffModel.C17_attr_phase_only_attr_actions', 'XmlDiffModel.C17_non_move_actions_change', 'XmlDiffModel.C17_each_node_changed_once']
+PARTIAL = {'C17_changes': "proved, any size and option set: at most |R| inserts, renames, text and tail updates (every matching); at most 2|R| moves and |L| deletes (every one-to-one matching); no more attribute actions than the two documents have non-ignored attributes together (C17_attribute_actions_bound); no node created by the script is deleted by it (C17_created_never_deleted, on the strict replay of the script). every action other than a move changes the document value (C17_non_move_actions_change: in the replay every insert, delete, rename, text, tail and attribute action yields a different list of payloads in document order). no node is renamed twice and no text or tail is set twice (C17_each_node_changed_once: in the replay the rename / text / tail actions hit pairwise different nodes). NOT proved, and false of the code: a move changes the document (known finding R1: value-level no-op moves past identical siblings) - moves are decided per run by the change-detecting strict replay of the real script, on namespaced pairs with the real patcher."}
 LEAN_MODULES = ['XmlDiffModel.Props.C17']
 SOURCES = ['diff.Differ.diff', 'diff.Differ.align_children', 'diff.Differ.update_node_attr', 'diff.Differ.update_node_text']
 RULE = 'Differ cluster: counting bounds on the real script against |L|, |R| and attribute counts; strict replay with per-action change detection on the id-tree and on the document value; created nodes never deleted; on namespaced documents (stream ns, the two documents may bind one URI to different prefixes) every non-move, non-namespace action of the real script must change the document when applied by the real patcher. Non-trivial = script has >= 2 action types or a move.'
